@@ -328,7 +328,7 @@ Lemma store_ref now k v tin d g f nem s : Inv s ->
 Proof.
   intros I. destruct (delete_node_ref k s I) as [I1 E1].
   unfold store, a_store.
-  destruct f as [| | |b]; [|split; [exact I|reflexivity]|split; [exact I1|exact E1]|].
+  destruct f as [| | |b]; [|split; [exact I1|exact E1]|split; [exact I1|exact E1]|].
   - (* FNone *)
     destruct (check_limits_ref now nem (delete_node k s) I1) as [I2 E2].
     set (s2 := check_limits now nem (delete_node k s)) in *.
